@@ -82,6 +82,7 @@ def check(case, rec):
   got = {k: getattr(d, k).numpy().copy() for k in fields}
   mom = d.actuator_moment.numpy().copy()
   mrn, mra, mci = d.moment_rownnz.numpy(), d.moment_rowadr.numpy(), d.moment_colind.numpy()
+  cws = [H.contacts(d, w) for w in range(n)] if np.any(mjm.actuator_trntype == int(mujoco.mjtTrn.mjTRN_BODY)) else None
   mjw.step(m, d)
   act_next = d.act.numpy()
   saturated = False
@@ -102,11 +103,46 @@ def check(case, rec):
         rec.violation(f"ball-joint servo force differs (MuJoCo wraps the error) for actuators {np.nonzero(ball)[0].tolist()}", sig="ball-position-wrap", world=w)
       rec.cls("ball-servo-present")
     keep = ~ball
+    # a body transmission's moment is the mean normal Jacobian over the contacts of that body: it is only comparable when both engines
+    # report the same contacts for the body (contact-set differences are C04's business: box-box counts, CCD boundary cases)
+    bodytrn_skipped = False
+    if cws is not None:
+      cw, cm = cws[w], H.mj_contacts(mjd)
+      pairs, ua, ub = H.match_contacts(cw, cm)
+      for u in np.nonzero(mjm.actuator_trntype == int(mujoco.mjtTrn.mjTRN_BODY))[0]:
+        b = int(mjm.actuator_trnid[u, 0])
+        on_b = lambda c, i: b in (int(mjm.geom_bodyid[c["geom"][i][0]]), int(mjm.geom_bodyid[c["geom"][i][1]]))
+        same = not any(on_b(cw, i) for i in ua) and not any(on_b(cm, j) for j in ub) and all(
+          np.linalg.norm(cw["pos"][i] - cm["pos"][j]) < 1e-4 and np.max(np.abs(np.asarray(cw["frame"][i], dtype=np.float64).reshape(-1) - np.asarray(cm["frame"][j]).reshape(-1))) < 1e-4
+          and (cw["dist"][i] < cw["includemargin"][i]) == (cm["dist"][j] < cm["includemargin"][j])
+          for i, j in pairs if on_b(cw, i)
+        )
+        if not same:
+          keep[u] = False
+          bodytrn_skipped = True
+      rec.cls(f"bodytrn-contacts-differ:{bodytrn_skipped}")
+    # slider-crank: length = av - sqrt(det), det = av^2 + rod^2 - |vec|^2, and the moment divides by sqrt(det).  Near det = 0 (rod barely
+    # reaches the slider axis) float32 round-off in det is amplified without bound and the det<=0 branch may flip, so no tolerance is
+    # meaningful there: such actuators are skipped (counted).  Well away from det = 0 (either sign) they are compared as usual.
+    crank_skipped = False
+    for u in np.nonzero(mjm.actuator_trntype == int(mujoco.mjtTrn.mjTRN_SLIDERCRANK))[0]:
+      c, sl = mjm.actuator_trnid[u]
+      rod = float(mjm.actuator_cranklength[u])
+      axis = mjd.site_xmat[sl].reshape(3, 3)[:, 2]
+      vec = mjd.site_xpos[c] - mjd.site_xpos[sl]
+      av = float(vec @ axis)
+      det = av * av + rod * rod - float(vec @ vec)
+      if abs(det) < 1e-2 * (av * av + rod * rod + float(vec @ vec)):
+        keep[u] = False
+        crank_skipped = True
+    if np.any(mjm.actuator_trntype == int(mujoco.mjtTrn.mjTRN_SLIDERCRANK)):
+      rec.cls(f"slidercrank-near-singular:{crank_skipped}")
+    bodytrn_skipped |= crank_skipped
     for k in fields:
       ref = np.asarray(getattr(mjd, k))
       sc = fscale if k in ("actuator_force", "qfrc_actuator") else None
       if k == "qfrc_actuator":
-        if ball.any():
+        if ball.any() or bodytrn_skipped:
           continue
         check_close(rec, k, got[k][w], ref, 5e-4, scale=sc, sig=f"fwd:{k}", world=w)
       elif k == "act_dot":
@@ -120,11 +156,19 @@ def check(case, rec):
       Mw[u, mci[w][a : a + nn]] += mom[w][a : a + nn]
     Mm = np.zeros((mjm.nu, mjm.nv))
     mujoco.mju_sparse2dense(Mm, mjd.actuator_moment, mjd.moment_rownnz, mjd.moment_rowadr, mjd.moment_colind)
-    check_close(rec, "actuator_moment", Mw, Mm, 5e-4, sig="fwd:moment", world=w)
+    check_close(rec, "actuator_moment", Mw[keep | ball], Mm[keep | ball], 5e-4, sig="fwd:moment", world=w)
     if mjm.na:
       mujoco.mj_step(mjm, mjd)
       if np.all(np.isfinite(mjd.act)):
-        check_close(rec, "act(next)", act_next[w], mjd.act, 5e-4, sig="step:act", world=w)
+        # same known finding, seen through mj_nextActivation: MuJoCo 3.13 also wraps the integrated activation of those servos
+        # (intvelocity / general integrator with kp on a ball joint) into (-pi*|gear|, pi*|gear|]
+        ball_act = np.zeros(mjm.na, dtype=bool)
+        for u in np.nonzero(ball)[0]:
+          if mjm.actuator_actnum[u] > 0:
+            ball_act[mjm.actuator_actadr[u] : mjm.actuator_actadr[u] + mjm.actuator_actnum[u]] = True
+        if ball_act.any() and np.max(np.abs(act_next[w][ball_act] - mjd.act[ball_act])) > 5e-4:
+          rec.violation(f"ball-joint servo activation differs (MuJoCo wraps it) for act slots {np.nonzero(ball_act)[0].tolist()}", sig="ball-position-wrap", world=w)
+        check_close(rec, "act(next)", act_next[w][~ball_act], mjd.act[~ball_act], 5e-4, sig="step:act", world=w)
     lim = (mjm.actuator_forcelimited.any() or mjm.actuator_ctrllimited.any() or mjm.jnt_actfrclimited.any() or (mjm.ntendon and mjm.tendon_actfrclimited.any()))
     saturated |= bool(lim) or mjm.na > 0
   rec.cls(f"clampctrl:{case['clampctrl']}", f"na>0:{mjm.na > 0}", *[f"trn:{int(t)}" for t in set(mjm.actuator_trntype.tolist())], *[f"dyn:{int(t)}" for t in set(mjm.actuator_dyntype.tolist())])
